@@ -214,8 +214,12 @@ func (m *Machine) exec(g *Goroutine, fr *Frame, in ssa.Instruction) stepStatus {
 		if cp < ln {
 			panic(goPanic{msg: "makeslice: cap out of range"})
 		}
+		if cp > 1<<40 {
+			// beyond any address space: the runtime panics
+			panic(goPanic{msg: "makeslice: cap out of range"})
+		}
 		if cp > 1<<16 {
-			panic(abortf("makeslice: cap %d too large for the model", cp))
+			panic(abortf("makeslice: cap %d too large for the model (resource exhaustion is outside the claim)", cp))
 		}
 		elem := x.Type().Underlying().(*types.Slice).Elem()
 		e := make([]Value, cp)
@@ -706,8 +710,17 @@ func (m *Machine) indexAddr(c Value, idx *Term) Value {
 	switch x := c.(type) {
 	case SliceVal:
 		if x.arr != nil {
-			if _, ok := x.arr.v.(*Blob); ok {
-				panic(abortf("IndexAddr into opaque blob"))
+			if bl, ok := x.arr.v.(*Blob); ok {
+				if bl.kind != "atombytes" {
+					panic(abortf("IndexAddr into opaque %s blob", bl.kind))
+				}
+				// bytes of symbolic length: bounds check against the length, content is a fresh byte
+				ln := m.strLen(bl.str)
+				if !m.branch(tAnd(tLe(mkInt(0), idx), tLt(idx, ln))) {
+					panic(goPanic{msg: "index out of range [" + idx.String() + "] with length " + ln.String()})
+				}
+				b := m.symInt("blobbyte", 8, false)
+				return PtrVal{obj: m.newObj(b, nil, "blobbyte")}
 			}
 		}
 		i := m.boundedIndex(idx, x.len)
